@@ -368,16 +368,10 @@ def run(ctx):
     from contracts import c_io
     ctx.verify(c_io.engine(), c_io.VERIFY)
     # the per-pass `done` sets only grow (proved for ElabPass above) because nothing outside ElabPass touches them
-    bad = ce.audit_cache_ownership()
-    ctx.obligations += 1
-    if bad:
-        from vcheck.core import Violation
-        ctx.violations.append(Violation("hdl21.elab:cache-ownership", f"class-level pass cache touched outside "
-                              f"ElabPass: {bad[:3]}", {"property": "C07", "obligation": "frame/cache-ownership",
-                                                       "offenders": bad}, False))
-    else:
-        ctx.discharged += 1
-        ctx.by_backend["ast-audit"] = ctx.by_backend.get("ast-audit", 0) + 1
+    bad, escapes = ce.audit_cache_ownership(with_escapes=True)
+    for e_ in escapes:
+        ctx.unsupported.append(("hdl21.elab:cache-ownership", f"the pass cache is bound to another name or handed to a call at {e_[0]}:{e_[1]}: the ownership audit cannot follow it"))
+    ctx.frame_audit("hdl21.elab:cache-ownership", bad, "a class-level pass cache is written outside ElabPass")
     rnd = random.Random(ctx.seed)
     designs = list(dag_designs())
     refs = {}
